@@ -60,6 +60,9 @@ CONSTANTS MaxParams,      \* longest signature with ordinary names only
           MaxKw,          \* most keyword arguments of a call of such a signature
           Hazard,         \* hazardous parameter names
           MaxHaz,         \* most hazardous names in one signature
+          Implicit,       \* ordinary names that merely LOOK like an implicit first argument (cls, klass, this, me): at most one per
+                          \* signature, at any position, alone or after a first parameter self; they are logged like any other
+          ImplKw,         \* most keyword arguments of a call of a signature with such a name (and no hazardous one besides self)
           HazParams,      \* longest signature with hazardous names
           HazPos, HazKw,  \* bounds of the calls of such a signature
           Extra,          \* keyword names used in calls besides the parameters' names
@@ -92,21 +95,24 @@ ValidShape(s) ==
 Shapes(n) == {s \in [1..n -> Kinds \X BOOLEAN] : ValidShape(s)}
 
 \* a naming gives every position its ordinary name ("-") or a hazardous one; hazardous names are distinct
-Namings(n) == {f \in [1..n -> Hazard \cup {"-"}] :
+Namings(n) == {f \in [1..n -> Hazard \cup Implicit \cup {"-"}] :
                  /\ \A i, j \in 1..n : (i # j /\ f[i] # "-") => f[i] # f[j]
-                 /\ Cardinality({i \in 1..n : f[i] # "-"}) <= MaxHaz
+                 /\ Cardinality({i \in 1..n : f[i] \in Hazard}) <= MaxHaz
+                 /\ Cardinality({i \in 1..n : f[i] \in Implicit}) <= 1
+                 /\ ((\E i \in 1..n : f[i] \in Hazard) /\ (\E i \in 1..n : f[i] \in Implicit)) => f[1] = "self"
                  /\ (\E i \in 1..n : f[i] # "-") => n <= HazParams}
 MaxN == IF MaxParams < HazParams THEN HazParams ELSE MaxParams
 Sigs == UNION {{[i \in 1..n |-> [k |-> s[i][1], d |-> s[i][2], n |-> IF f[i] = "-" THEN Ord[i] ELSE f[i]]] :
                    s \in Shapes(n), f \in {g \in Namings(n) : (\A i \in 1..n : g[i] = "-") => n <= MaxParams}} : n \in 0..MaxN}
-IsHaz(sig) == \E i \in DOMAIN sig : sig[i].n \in Hazard
+IsHaz(sig) == \E i \in DOMAIN sig : sig[i].n \in Hazard \cup Implicit
+IsImpl(sig) == \E i \in DOMAIN sig : sig[i].n \in Implicit
 
 ParamNames(sig) == {sig[i].n : i \in DOMAIN sig}
 MethOK(sig, np) == Len(sig) >= 1 /\ sig[1].n = "self" /\ sig[1].k \in {"PO", "PK"} /\ np >= 1
 \* calls of a callable with signature sig, keyword names drawn from pool
 CallsP(sig, pool) == {[np |-> p, kw |-> K, meth |-> m] :
                  p \in 0..(IF IsHaz(sig) THEN HazPos ELSE MaxPos),
-                 K \in {S \in SUBSET pool : Cardinality(S) <= (IF IsHaz(sig) THEN HazKw ELSE MaxKw)},
+                 K \in {S \in SUBSET pool : Cardinality(S) <= (IF IsImpl(sig) THEN ImplKw ELSE IF IsHaz(sig) THEN HazKw ELSE MaxKw)},
                  m \in BOOLEAN}
 Calls(sig) == CallsP(sig, ParamNames(sig) \cup Extra)
 NullCall(c) == c.np = 0 /\ c.kw = {}
@@ -128,7 +134,7 @@ OptsSmall(sig) ==
       [ia |-> NoIa, ir |-> TRUE, at |-> TRUE, fx |-> "raise", bare |-> FALSE],
       [ia |-> Ia(last \cup {"bad"}), ir |-> TRUE, at |-> FALSE, fx |-> "ret", bare |-> FALSE]}
 FullOpt(sig, call) == /\ Len(sig) <= FullOptParams /\ Cardinality(call.kw) <= FullOptKw
-                      /\ \A i \in DOMAIN sig : sig[i].n \in Hazard => sig[i].n = "self"
+                      /\ \A i \in DOMAIN sig : sig[i].n \in Hazard \cup Implicit => sig[i].n = "self"
 OptsOf(sig, call) == {o \in (IF FullOpt(sig, call) THEN OptsFull(sig) ELSE OptsSmall(sig)) : Refused(sig, o) => NullCall(call)}
 
 -----------------------------------------------------------------------------
@@ -389,6 +395,9 @@ LoggedOK == pc = "start" =>
                /\ L \subseteq ParamNames(OS(cs))
                /\ cs.opt.ia.given => L = (cs.opt.ia.names \cap ParamNames(OS(cs))) \ {"self"}
                /\ ~cs.opt.ia.given => L = ParamNames(OS(cs)) \ {"self"}
+\* ... and a parameter that merely looks implicit (cls, this, ...) is logged like any other
+ImplicitLogged == pc = "start" => \A i \in DOMAIN OS(cs) :
+                    (OS(cs)[i].n \in Implicit /\ (cs.opt.ia.given => OS(cs)[i].n \in cs.opt.ia.names)) => OS(cs)[i].n \in Logged(OS(cs), cs.opt)
 \* the wrapper: shape of every finished observation
 Evs(e) == {i \in DOMAIN obs : obs[i].e = e}
 Shape == pc = "done" =>
